@@ -27,7 +27,13 @@ let parse_ops (toks : string list) : op list =
   let cred () = let s = b01 (next ()) in let h = hash_tok (next ()) in { cr_script = s; cr_hash = h } in
   let rec go k acc =
     if k = 0 then List.rev acc else begin
-      let o = match next () with
+      match next () with
+      | "q" ->
+        (* observer calls are not calls of the model, except calc_script_data_hash (q 2, q 3), which stores a hash in the builder *)
+        let kind = int_of_string (next ()) in
+        if kind >= 2 then go (k - 1) (OpCalc :: acc) else go (k - 1) acc
+      | tok ->
+      let o = match tok with
         | "i" -> OpIn (in_op ())
         | "c" -> OpCol (in_op ())
         | "m" ->
